@@ -70,6 +70,10 @@ op("nearbyint_as_int", "xsimd::nearbyint_as_int(a)", "B", FLOAT_TYPES, "R:int")
 for _n, _e, _r in (("cadd", "z + w", "C"), ("csub", "z - w", "C"), ("cneg", "-z", "C"), ("cconj", "xsimd::conj(z)", "C"), ("creal", "xsimd::real(z)", "B"),
                    ("cimag", "xsimd::imag(z)", "B"), ("ceq", "z == w", "M"), ("cneq", "z != w", "M")):
     op(_n, _e, "ZZ" if "w" in _e else "Z", FLOAT_TYPES, _r)
+op("cload_aligned", "xsimd::batch<std::complex<T>, A>::load_aligned(pc)", "k", FLOAT_TYPES, "C")
+op("cload_unaligned", "xsimd::batch<std::complex<T>, A>::load_unaligned(pc)", "k", FLOAT_TYPES, "C")
+op("cstore_aligned", "(z.store_aligned(qc), z)", "Zl", FLOAT_TYPES, "C")
+op("cstore_unaligned", "(z.store_unaligned(qc), z)", "Zl", FLOAT_TYPES, "C")
 # C09: reductions
 for _n in ("reduce_add", "reduce_max", "reduce_min"):
     op(_n, "xsimd::%s(a)" % _n, "B", ALL_TYPES, "T")
@@ -117,7 +121,7 @@ def entry_text(opn, tid, aid):
     T, A = TYPES[tid][0], ARCHS[aid][0]
     B = "xsimd::batch<%s, %s>" % (T, A)
     M = "xsimd::batch_bool<%s, %s>" % (T, A)
-    names = {"B": iter(["a", "b", "c"]), "M": iter(["m", "m2"]), "I": iter(["n"]), "S": iter(["s"]), "p": iter(["p"]), "q": iter(["q"]), "Z": iter(["z", "w"]), "Q": iter(["q"]), "x": iter(["pb"]), "y": iter(["qb"]), "U": iter(["pu"]), "V": iter(["qu"]), "J": iter(["idx"])}
+    names = {"B": iter(["a", "b", "c"]), "M": iter(["m", "m2"]), "I": iter(["n"]), "S": iter(["s"]), "p": iter(["p"]), "q": iter(["q"]), "Z": iter(["z", "w"]), "Q": iter(["q"]), "x": iter(["pb"]), "y": iter(["qb"]), "U": iter(["pu"]), "V": iter(["qu"]), "J": iter(["idx"]), "k": iter(["pc"]), "l": iter(["qc"])}
     Cb = "xsimd::batch<std::complex<%s>, %s>" % (T, A)
     params, prologue = [], []
     for k in kinds:
@@ -141,6 +145,10 @@ def entry_text(opn, tid, aid):
             params.append("%s* %s" % (T, nm))
         elif k == "Q":
             params.append("%s* %s" % (B, nm))
+        elif k == "k":
+            params.append("std::complex<%s> const* %s" % (T, nm))
+        elif k == "l":
+            params.append("std::complex<%s>* %s" % (T, nm))
         elif k == "x":
             params.append("bool const* %s" % nm)
         elif k == "y":
